@@ -78,6 +78,73 @@ def inject(name, kw, cls, call, state, base, seed=7):
     return [int(x) for x in injv], [int(x) for x in d.flatten().tolist()], [int(x) for x in gotv]
 
 
+def inject_merge(name, kw, cls, call, state, vals, seed=7):
+    """Objects whose `state` is vals[i] everywhere; merge objects 1.. into object 0; return observed ints."""
+    r = random.Random(seed)
+    a, k = call(r, 4)
+    probe = basecalls.make(name, kw, cls)
+    probe.update(*a, **k)
+    objs = []
+    for v in vals:
+        sd = probe.state_dict()
+        cur = sd[state]
+        sd[state] = torch.full_like(cur, v) if isinstance(cur, torch.Tensor) else type(cur)(v)
+        m = basecalls.make(name, kw, cls)
+        m.load_state_dict(sd)
+        objs.append(m)
+    injected = []
+    for m in objs:
+        x = getattr(m, state)
+        injected.append(int(x.to(torch.float64).flatten()[0].item()) if isinstance(x, torch.Tensor) else int(x))
+    objs[0].merge_state(objs[1:])
+    got = getattr(objs[0], state)
+    gotv = got.to(torch.float64).flatten().tolist() if isinstance(got, torch.Tensor) else [float(got)]
+    return injected, [int(x) for x in gotv]
+
+
+def merge_vals(kind):
+    e = EDGE[kind]
+    if kind in WIDE:
+        return [[3, 2 ** 24] + [1] * 8, [2 ** 24 + 1, 2 ** 24 + 1, 5], [7, 2 ** 31 - 1, 1, 1], [e - 64, 3, 4, 5]]
+    return [[e - 2, 1, 1, 1], [1, e - 1, 1, 1]] if kind.startswith(("F", "BF")) else [[e - 6, 1, 2]]
+
+
+def merge_stream(ctx, table, cases_by_class, known):
+    s = ctx.stream("merge-injection (merge_state of large accumulators vs acc_run model, bit-exact)")
+    mcases, meta = [], []
+    for (c, st, kind, integer) in table:
+        if not integer:
+            continue
+        for (label, kw, call, cls) in cases_by_class.get(c, [])[:1]:
+            for vals in merge_vals(kind):
+                try:
+                    inj, got = inject_merge(c, kw, cls, call, st, vals)
+                except KeyError:
+                    break
+                except Exception as ex:
+                    ctx.oblige(f"tie:inject-merge:{c}.{st}", False, detail=f"{type(ex).__name__}: {ex}")
+                    break
+                mcases.append(("acc", [T(KNAME[kind]), inj[0], inj[1:]]))
+                meta.append((c, st, kind, label, kw, inj, got))
+    outs = run_model(mcases)
+    bad, lost = {}, {}
+    for (c, st, kind, label, kw, inj, got), mo in zip(meta, outs):
+        s.case((c, st, kind, tuple(inj)), True, sample={"class": c, "state": st, "kind": kind, "merged_values": inj, "observed": got[0], "model": mo})
+        s.count("kind:" + kind)
+        cfg = kw if kw != "FAD" else "fad"
+        if any(g != mo for g in got) and (c, st) not in bad:
+            bad[(c, st)] = {"class": label, "cfg": cfg, "state": st, "kind": kind, "merged_values": inj, "observed": got[0], "model_acc_run": mo}
+        if any(g != sum(inj) for g in got) and sum(inj) <= 2 ** 53 and (c, st, kind) not in lost:
+            lost[(c, st, kind)] = {"check": "inject-and-merge", "class": label, "cfg": cfg, "state": st, "kind": kind,
+                                   "merged_values": inj, "observed": got[0], "expected": sum(inj)}
+    for (c, st, kind, integer) in table:
+        if integer:
+            m = bad.get((c, st))
+            ctx.oblige(f"tie:acc-merge:{c}.{st}", m is None, detail=repr(m) if m else "")
+    for (c, st, kind), w in sorted(lost.items()):
+        ctx.violation("failing-input", f"{c}.{st}", {**w, "broken": f"tie:acc-merge:{c}.{st}"}, finding_id=known.get((c, st, kind)))
+
+
 def run(ctx):
     table = rows()
     known = known_triples()
@@ -141,6 +208,7 @@ def run(ctx):
                 ctx.violation("no-failing-input-found", f"{c}.{st}",
                               {"broken": "all_accumulators_wide_or_known", "class": c, "state": st, "kind": kind,
                                "explanation": "accumulator stored in a narrow kind; increments are not integer-valued on the probe input so no exact witness was produced"})
+    merge_stream(ctx, table, cases_by_class, known)
     stale = [k for k in known if k not in {(c, st, kd) for c, st, kd, _ in table}]
     if stale:
         ctx.notes.append(f"stale known-finding accumulators (no longer narrow on this tree): {stale[:8]}")
